@@ -1,8 +1,9 @@
 ----------------------------- MODULE Gen_Engine -----------------------------
 EXTENDS Engine, Json, Randomization
-ASSUME JsonSerialize("catalog.json", <<[tx |-> TX, genesis |-> GenesisOuts, award |-> Award,
+ASSUME JsonSerialize("catalog.json", <<[tx |-> TX, genesis |-> GenesisOuts, award |-> AwardSched, awards |-> [h \in 1..16 |-> AwardAt(h)],
                                         keys |-> SetToSeq(Keys), addrs |-> Addrs]>>)
-Dump == Len(hist) < MaxOps \/ eres # "" \/ (JsonSerialize("out/b_" \o ToString(TLCGet("stats").traces) \o ".json", hist) /\ FALSE)
+Truncated == \E i \in DOMAIN hist : hist[i].op = "minetrunc"      \* a truncating round ends the behaviour
+Dump == (Len(hist) < MaxOps /\ ~Truncated) \/ eres # "" \/ (JsonSerialize("out/b_" \o ToString(TLCGet("stats").traces) \o ".json", hist) /\ FALSE)
 Pick(k, S) == RandomSubset(IF Cardinality(S) < k THEN Cardinality(S) ELSE k, S)
 V1(s, lh, skip) == {t \in Txs \ skip : Valid(s, t, lh)}
 FirstSeqs(p) == LET r == Replay(p) on == {t \in Txs : OnChain(t, p)} IN
@@ -14,7 +15,7 @@ Chains(p) == {<<a>> : a \in FirstSeqs(p)}
                 \cup UNION {{<<a, b>> : b \in LaterOf(p, Range(a))} : a \in FirstSeqs(p)}
                 \cup UNION {UNION {{<<a, b, c>> : c \in LaterOf(p, Range(a) \cup Range(b))} : b \in LaterOf(p, Range(a))} : a \in Pick(2, FirstSeqs(p))}
 GNext ==
-  \/ /\ Len(hist) < MaxOps /\ n < MaxBlocks - 3
+  \/ /\ Len(hist) < MaxOps /\ n < MaxBlocks - 3 /\ ~Truncated
      /\ \/ \E p \in 1..n : \E ss \in Pick(2, Chains(p)) : PushBegin(p, ss, "ok")
         \/ \E p \in Pick(1, 1..n) : \E ss \in Pick(1, Chains(p)) : \E kd \in Pick(1, {"badaward", "badsig1", "badsig2"}) : PushBegin(p, ss, kd)
         \/ \E b \in Pick(1, 2..n) : RePush(b)
@@ -24,6 +25,7 @@ GNext ==
         \/ \E x \in Pick(1, {0}) : (ptr = ltip /\ EMine)
         \/ Tick
         \/ \E x \in Pick(1, {0}) : ERestart
+  \/ (2 * Len(hist) >= MaxOps /\ Len(hist) < MaxOps /\ ~Truncated /\ LHeight >= 2 /\ \E d \in Pick(1, Anc(ltip) \ {ltip}) : ETruncBegin(d, <<"*">>, {"*"}))
   \/ Micro \/ PushEnd
 GSpec == EInit /\ [][GNext]_evars
 =============================================================================
